@@ -1,2 +1,144 @@
-(* Proofs/MashProofsC.v *)
+(* Proofs/MashProofsC.v — C17, the real-valued laws of the Mash distance
+   (Coq's classical real numbers). *)
+From Coq Require Import Reals Lra.
 From Bio Require Import Base.
+From Bio.Model Require Import Seq Mash.
+From Bio.Spec Require Import MashSpec.
+From Bio.Proofs Require Import MashProofs MashProofsB.
+Local Open Scope R_scope.
+
+Definition gfun (j : R) : R := 2 * j / (1 + j).
+
+Lemma gfun_pos j : 0 < j -> 0 < gfun j.
+Proof.
+  intros H. unfold gfun. apply Rdiv_lt_0_compat; lra.
+Qed.
+
+Lemma gfun_le j1 j2 : 0 < j1 -> j1 <= j2 -> gfun j1 <= gfun j2.
+Proof.
+  intros H1 H2. unfold gfun, Rdiv.
+  assert (A : 0 < 1 + j1) by lra. assert (B : 0 < 1 + j2) by lra.
+  apply Rmult_le_reg_r with (r := (1 + j1) * (1 + j2)).
+  - apply Rmult_lt_0_compat; assumption.
+  - replace (2 * j1 * / (1 + j1) * ((1 + j1) * (1 + j2))) with (2 * j1 * (1 + j2)) by (field; lra).
+    replace (2 * j2 * / (1 + j2) * ((1 + j1) * (1 + j2))) with (2 * j2 * (1 + j1)) by (field; lra).
+    nra.
+Qed.
+
+Lemma gfun_1 : gfun 1 = 1.
+Proof. unfold gfun. field. Qed.
+
+Lemma ln_le' x y : 0 < x -> x <= y -> ln x <= ln y.
+Proof.
+  intros Hx [Hlt | Heq].
+  - left. apply ln_increasing; assumption.
+  - subst. right. reflexivity.
+Qed.
+
+(* the unclamped distance *)
+Definition raw_dist (j : R) (k : nat) : R := - ln (gfun j) / INR k.
+
+Lemma mash_dist_pos j k : j <> 0 -> mash_dist j k = Rmin 1 (raw_dist j k).
+Proof. intros H. unfold mash_dist. destruct (Req_EM_T j 0); [contradiction|reflexivity]. Qed.
+
+Lemma mash_dist_0 k : mash_dist 0 k = 1.
+Proof. unfold mash_dist. destruct (Req_EM_T 0 0) as [|n]; [reflexivity|contradiction n; reflexivity]. Qed.
+
+Lemma raw_dist_nonneg j k : 0 < j <= 1 -> (0 < k)%nat -> 0 <= raw_dist j k.
+Proof.
+  intros [H0 H1] Hk. unfold raw_dist, Rdiv.
+  assert (K : 0 < INR k) by (apply lt_0_INR; assumption).
+  apply Rmult_le_pos.
+  - assert (L : ln (gfun j) <= ln 1).
+    { apply ln_le'. apply gfun_pos; assumption. rewrite <- gfun_1. apply gfun_le; lra. }
+    rewrite ln_1 in L. lra.
+  - left. apply Rinv_0_lt_compat. assumption.
+Qed.
+
+Lemma raw_dist_antitone j1 j2 k : 0 < j1 -> j1 <= j2 -> (0 < k)%nat -> raw_dist j2 k <= raw_dist j1 k.
+Proof.
+  intros H1 H2 Hk. unfold raw_dist, Rdiv.
+  assert (K : 0 < INR k) by (apply lt_0_INR; assumption).
+  apply Rmult_le_compat_r.
+  - left. apply Rinv_0_lt_compat. assumption.
+  - apply Ropp_le_contravar. apply ln_le'. apply gfun_pos; assumption. apply gfun_le; assumption.
+Qed.
+
+Lemma dist_range j k : 0 <= j <= 1 -> (0 < k)%nat -> 0 <= mash_dist j k <= 1.
+Proof.
+  intros [H0 H1] Hk. destruct (Req_EM_T j 0) as [E|E].
+  - subst. rewrite mash_dist_0. lra.
+  - rewrite mash_dist_pos by assumption. split.
+    + apply Rmin_glb. lra. apply raw_dist_nonneg; [lra|assumption].
+    + apply Rmin_l.
+Qed.
+
+Lemma dist_identical k : mash_dist 1 k = 0.
+Proof.
+  rewrite mash_dist_pos by lra. unfold raw_dist. rewrite gfun_1, ln_1.
+  replace (- 0 / INR k) with 0 by (unfold Rdiv; ring).
+  apply Rmin_right. lra.
+Qed.
+
+Lemma dist_zero k : mash_dist 0 k = 1.
+Proof. apply mash_dist_0. Qed.
+
+Lemma dist_antitone j1 j2 k : 0 <= j1 -> j1 <= j2 -> j2 <= 1 -> (0 < k)%nat ->
+  mash_dist j2 k <= mash_dist j1 k.
+Proof.
+  intros H0 H12 H1 Hk. destruct (Req_EM_T j1 0) as [E|E].
+  - subst. rewrite mash_dist_0. apply (dist_range j2 k); [lra|assumption].
+  - assert (0 < j1) by lra.
+    rewrite (mash_dist_pos j1) by assumption. rewrite (mash_dist_pos j2) by lra.
+    apply Rle_min_compat_l. apply raw_dist_antitone; assumption.
+Qed.
+
+(* the formula, unfolded: for 0 < j the distance is min(1, -ln(2j/(1+j))/k) *)
+Lemma dist_formula j k : 0 < j -> mash_dist j k = Rmin 1 (- ln (2 * j / (1 + j)) / INR k).
+Proof. intros H. rewrite mash_dist_pos by lra. reflexivity. Qed.
+
+(* a pair (i, u) with 0 <= i <= u, 0 < u is a Jaccard index in [0,1] *)
+Lemma pair_in_unit (i u : Z) : (0 <= i <= u)%Z -> (0 < u)%Z -> 0 <= IZR i / IZR u <= 1.
+Proof.
+  intros [Hi Hiu] Hu.
+  assert (U : 0 < IZR u) by (apply IZR_lt; assumption).
+  assert (I0 : 0 <= IZR i) by (apply IZR_le; assumption).
+  assert (IU : IZR i <= IZR u) by (apply IZR_le; assumption).
+  unfold Rdiv. split.
+  - apply Rmult_le_pos. assumption. left. apply Rinv_0_lt_compat. assumption.
+  - apply Rmult_le_reg_r with (r := IZR u). assumption.
+    rewrite Rmult_assoc, Rinv_l by lra. lra.
+Qed.
+
+Lemma dist_pair_range i u k : (0 <= i <= u)%Z -> (0 < u)%Z -> (0 < k)%nat ->
+  0 <= mash_dist_pair (i, u) k <= 1.
+Proof.
+  intros H1 H2 Hk. unfold mash_dist_pair. cbn [fst snd].
+  apply dist_range. apply pair_in_unit; assumption. assumption.
+Qed.
+
+Lemma dist_pair_identical n k : (0 < n)%Z -> mash_dist_pair (n, n) k = 0.
+Proof.
+  intros Hn. unfold mash_dist_pair. cbn [fst snd].
+  replace (IZR n / IZR n) with 1. apply dist_identical.
+  field. apply not_0_IZR. lia.
+Qed.
+
+(* ---- Distance of two sketches ----------------------------------------------------- *)
+(* symmetric: the loop returns the same pair for both orders *)
+Lemma dist_symmetric a b n k p q :
+  intersect a b n = Ok p -> intersect b a n = Ok q -> mash_dist_pair p k = mash_dist_pair q k.
+Proof. intros Hp Hq. rewrite intersect_sym in Hq. rewrite Hp in Hq. inversion Hq. reflexivity. Qed.
+
+(* two full sketches of size n: the distance is the formula applied to the
+   shared fraction of the n smallest values of the union, and lies in [0,1] *)
+Lemma dist_full a b n k : desc a -> desc b -> length a = n -> length b = n -> (1 <= n)%nat ->
+  exists p, intersect a b (Z.of_nat n) = Ok p /\
+    mash_dist_pair p k = mash_dist (INR (shared_bottom n a b) / INR n) k /\
+    ((0 < k)%nat -> 0 <= mash_dist_pair p k <= 1).
+Proof.
+  intros Da Db La Lb Hn. eexists. split; [apply jaccard_full; assumption|]. split.
+  - unfold mash_dist_pair. cbn [fst snd]. rewrite <- !INR_IZR_INZ. reflexivity.
+  - intros Hk. apply dist_pair_range; [|lia|exact Hk].
+    pose proof (shared_bottom_le n a b). lia.
+Qed.
